@@ -22,12 +22,14 @@
 // replacement character 0 and converts back; then
 //   U=<texthex>:<stop ok 0|1>:<to_utf stop hex>:<to_utf skip hex>,..   for the input and both outputs
 //   E=...                                 valid("UTF-8",.) / validate_or_filter("UTF-8",.,0) of the converted texts
+//   J=<0|1>                      the rule set could also be built through the JSON constructor and was compared (PATHS-DIFFER:json-rules)
 //   S=<k>:<schemehex>:<0|1>,..   answers of the scheme regular expression of URI validator k (the URI parser itself is modelled)
 //   V=<utf8hex>:<ok 0|1>:<from_utf stop hex>,..  for the UTF-8 text that the library converts back; that text is
 //                                         obtained from the library itself: filter() of the converted input under the
 //                                         same rules with encoding UTF-8.
 #include <cppcms/xss.h>
 #include <cppcms/encoding.h>
+#include <cppcms/json.h>
 #include <booster/regex.h>
 #include <booster/locale/encoding.h>
 #include <map>
@@ -94,7 +96,8 @@ static std::vector<std::string> split_on(std::string const &s,char c)
 }
 
 struct ruleset {
-	xss::rules logged, plain, u8;
+	xss::rules logged, plain, u8, json;
+	bool has_json;
 	std::string enc;
 	bool ok;
 	std::string err;
@@ -119,6 +122,68 @@ static void add_plain(xss::rules &r,std::string const &tag,std::string const &at
 	else if(spec=="uri") r.add_uri_property(tag,attr);
 	else if(spec.compare(0,5,"uris:")==0) r.add_uri_property(tag,attr,spec.substr(5));
 	else r.add_property(tag,attr,make_validator(spec));
+}
+
+// the same rule set through the JSON constructor of xss::rules, where JSON can express it (every tag listed in "tags",
+// no tag twice); returns false otherwise
+static bool build_json(std::map<std::string,std::string> &f,std::vector<std::string> const &funs,xss::rules &out)
+{
+	namespace json = cppcms::json;
+	try {
+		json::value v;
+		v.set("xhtml",f["m"]!="h");
+		v.set("comments",f["c"]=="1");
+		v.set("numeric_entities",f["n"]=="1");
+		std::vector<std::string> ents=split_on(f["ent"],',');
+		for(size_t i=0;i<ents.size();i++) ents[i]=unhex(ents[i]);
+		v.set("entities",ents);
+		if(f["enc"]!="-" && !f["enc"].empty()) v.set("encoding",f["enc"]);
+		std::vector<std::string> kinds[4];
+		json::array attrs;
+		std::vector<std::string> tags=split_on(f["tags"],';');
+		for(size_t i=0;i<tags.size();i++) {
+			std::vector<std::string> t=split_on(tags[i],':');
+			if(t.size()<2) return false;
+			std::string name=unhex(t[0]);
+			int kind=atoi(t[1].c_str());
+			if(kind<1 || kind>3) return false;
+			kinds[kind].push_back(name);
+			if(t.size()<3) continue;
+			std::vector<std::string> as=split_on(t[2],',');
+			for(size_t j=0;j<as.size();j++) {
+				size_t p=as[j].find('~');
+				if(p==std::string::npos) return false;
+				std::string an=unhex(as[j].substr(0,p));
+				std::string vk=as[j].substr(p+1);
+				json::value a;
+				if(vk=="b") a.set("type","boolean");
+				else if(vk=="i") a.set("type","integer");
+				else if(vk[0]=='f') {
+					size_t k=atoi(vk.c_str()+1);
+					if(k>=funs.size()) return false;
+					std::string const &spec=funs[k];
+					if(spec.compare(0,3,"re:")==0) { a.set("type","regex"); a.set("expression",spec.substr(3)); }
+					else if(spec=="uri") a.set("type","uri");
+					else if(spec.compare(0,5,"uris:")==0) { a.set("type","uri"); a.set("scheme",spec.substr(5)); }
+					else if(spec.compare(0,4,"abs:")==0) { a.set("type","absolute_uri"); a.set("scheme",spec.substr(4)); }
+					else if(spec=="rel") a.set("type","relative_uri");
+					else return false;
+				}
+				else return false;
+				json::value pr; pr.set("tag",name); pr.set("attr",an);
+				json::array prs; prs.push_back(pr);
+				a["pairs"]=prs;
+				attrs.push_back(a);
+			}
+		}
+		v.set("tags.opening_and_closing",kinds[1]);
+		v.set("tags.stand_alone",kinds[2]);
+		v.set("tags.any_tag",kinds[3]);
+		if(!attrs.empty()) v["attributes"]=attrs;
+		out = xss::rules(v);
+		return true;
+	}
+	catch(std::exception const &) { return false; }
 }
 
 static std::shared_ptr<ruleset> build(std::map<std::string,std::string> &f)
@@ -174,6 +239,7 @@ static std::shared_ptr<ruleset> build(std::map<std::string,std::string> &f)
 			}
 		}
 		rs->enc = (f["enc"]=="-") ? std::string() : f["enc"];
+		rs->has_json = build_json(f,funs,rs->json);
 	}
 	catch(std::exception const &e) { rs->ok=false; rs->err=e.what(); }
 	if(cache.size()>200) cache.clear();
@@ -221,6 +287,10 @@ int main()
 			if(xss::validate(b,e,rs->plain)!=val || xss::filter(in,rs->plain,xss::remove_invalid,repl)!=rm
 			   || xss::filter(in,rs->plain,xss::escape_invalid,repl)!=es)
 				diff+=" PATHS-DIFFER:plain-api-rules";
+			// and through the rule set loaded from JSON
+			if(rs->has_json && (xss::validate(b,e,rs->json)!=val || xss::filter(in,rs->json,xss::remove_invalid,repl)!=rm
+			   || xss::filter(in,rs->json,xss::escape_invalid,repl)!=es))
+				diff+=" PATHS-DIFFER:json-rules";
 			out<<"v="<<b01(val)<<" fl="<<b01(fl_rm)<<" rm="<<hex(rm)<<" es="<<hex(es)<<" vrm="<<b01(vrm)<<" ves="<<b01(ves)<<diff<<" | F=";
 			if(log.empty()) out<<"-";
 			bool first=true;
@@ -283,7 +353,7 @@ int main()
 			}
 			out<<" E="<<(etab.str().empty()?std::string("-"):etab.str())<<" A="<<b01(compat)
 			   <<" U="<<(utab.str().empty()?std::string("-"):utab.str())<<" V="<<(vtab.str().empty()?std::string("-"):vtab.str());
-			out<<" S=";
+			out<<" J="<<b01(rs->has_json)<<" S=";
 			if(slog.empty()) out<<"-";
 			first=true;
 			for(log_type::const_iterator p=slog.begin();p!=slog.end();++p) {
